@@ -274,7 +274,12 @@ class C19(Machine):
             return "checked"
         if op in ("extend_matrix", "extend_sequences", "add_sequences", "replace_sequences", "update_sequences"):
             if mA is mB:
-                return "skipped"      # self-argument is exercised by 'self_extend' for termination only
+                if op in ("extend_matrix", "extend_sequences"):
+                    return "skipped"      # see 'self_extend'
+                # the matrix itself as argument: adding / replacing / updating its rows with its own rows names no change
+                rec.fault("self_argument")
+                getattr(mA, op)(mA)
+                return "self"
             if op in ("extend_matrix", "extend_sequences") and width(rA) + width(rB) > MAXCOLS:
                 return "skipped"
             if op == "extend_matrix":
@@ -314,7 +319,7 @@ class C19(Machine):
             fn = mA.extend_matrix if st["flag"] else mA.extend_sequences
             fn(mA)
             for l in rA:
-                rA[l] = [c for c in mA[T(l)].symbols_as_string()]    # whatever it did, it must have finished
+                rA[l] = rA[l] + rA[l]       # every row extended by (a snapshot of) itself
             return "self"
         if op == "foreign":
             fop = st["fop"]
